@@ -78,6 +78,13 @@ prop("C16",
      rule="the same random histories (3..30 steps) with, after every step, for every arena reachable from a live value: Arc strong count (hook) = number of live root-kind values pointing into it (walked through owned containers); then all values dropped in a random order with the survivors read in between",
      assumptions=["Arc's counter is atomic (std); cross-thread schedules are not explored by this check", "the counting allocator check of 'all memory released' is left to the thorough tier"])
 
+prop("C04",
+     rule="44 target types (all integer widths incl. 128-bit, f32/f64, char, String, unit, Option, Vec, tuples, fixed arrays, maps keyed by string/integer/bool/unit-enum, structs with optional/defaulted/unknown/denied/borrowed/flattened fields, newtype/tuple/unit structs, externally/internally/adjacently tagged and untagged enums, byte buffers, serde_json::Value) x type-directed texts in three modes (matching, near-matching: range boundaries, wrong width, missing/extra/duplicate fields, wrong framing, quoted numbers; mismatching + byte mutations) x {from_str, from_slice}; sonic-rs result (Ok value via Debug / Err) must equal serde_json's for the same type",
+     assumptions=["serde_json 1.0.151 (float_roundtrip) is the reference named by the property; serde-derive's visitors are third-party", "documented differences excluded by the generator: nesting beyond 128, f32 overflow to infinity (F19), strings with escapes/controls as byte buffers (F21)"])
+prop("C19",
+     rule="for each of the 44 types: values obtained from matching texts: to_value(x) vs DOM of to_string(x), from_value(to_value(x)) = x, from_str(to_string(x)) = x; 2500 generated values of the whole serde data model: to_value must denote the value (Model/SerVal.v; f32 widened exactly), agree with the text route (except f32: F24) and fail exactly for integers beyond 64 bits; 1500 pairs of DOM values (parsed vs rebuilt with shuffled members vs perturbed): reflexive, symmetric, order- and construction-insensitive equality agreeing with the dumps; comparison with primitives",
+     assumptions=["hash-map iteration order is irrelevant (sorted dumps)"])
+
 def classify_known(pid, case, known):
     """return the id of the recorded known finding this mismatch belongs to, or None"""
     for k in known:
